@@ -997,8 +997,12 @@ func (x *vlExec) afterOp(op vlOp) {
 	if nlive > x.st.maxLive {
 		x.st.maxLive = nlive
 	}
-	// C03: caller-owned memory is never written
+	// C03: caller-owned memory is never written (very large slices are re-compared every 16th
+	// operation and at teardown only: comparing 8MB after every step dominated the run time)
 	for _, w := range x.watch {
+		if len(w.p) > 1<<20 && x.opIdx%16 != 0 && op.K != "teardown" {
+			continue
+		}
 		if !bytes.Equal(w.p, w.snap) {
 			i := 0
 			for i < len(w.p) && w.p[i] == w.snap[i] {
